@@ -184,9 +184,33 @@ func ite(c, a, b Term) Term {
 	}
 	return Term{"(ite " + c.S + " " + a.S + " " + b.S + ")", a.Sort}
 }
+// curDefs: defining terms of the constants introduced by VC.define (generation is single-threaded per VC)
+var curDefs map[string]string
+
 func sel(arr, idx Term) Term {
 	_, v := arr.Sort.arrayParts()
+	// peephole: select(store(a, i, x), i) = x, looking through one level of definition
+	body := arr.S
+	if d, ok := curDefs[body]; ok {
+		body = d
+	}
+	if strings.HasPrefix(body, "(store ") {
+		args := splitSexprArgs(body)
+		if len(args) == 4 && args[2] == idx.S {
+			return Term{args[3], v}
+		}
+	}
 	return Term{"(select " + arr.S + " " + idx.S + ")", v}
+}
+
+func bvadd64(a, b Term) Term {
+	if a.S == "(_ bv0 64)" {
+		return b
+	}
+	if b.S == "(_ bv0 64)" {
+		return a
+	}
+	return Term{"(bvadd " + a.S + " " + b.S + ")", SBV(64)}
 }
 func sto(arr, idx, val Term) Term {
 	return Term{"(store " + arr.S + " " + idx.S + " " + val.S + ")", arr.Sort}
@@ -596,6 +620,9 @@ func (vc *VC) define(prefix string, t Term) Term {
 	}
 	c := vc.fresh(prefix, t.Sort)
 	vc.asserts = append(vc.asserts, Assertion{S: "(= " + c.S + " " + t.S + ")", Label: "def", Block: -1})
+	if curDefs != nil && strings.HasPrefix(t.S, "(store ") {
+		curDefs[c.S] = t.S
+	}
 	return c
 }
 
